@@ -100,7 +100,13 @@ def diff_expr(draw, nm, allow_dot=False):
         d = ("bin", "-", ("dot",), ("sym", b))
         op, n = draw(st.sampled_from([("/", 2), ("%", 4), (">>", 1), ("<<", 1), ("/", 4), ("%", 6)]))
         return ("bin", op, d, ("num", n))
-    k = draw(st.integers(0, 4))
+    k = draw(st.integers(0, 6))
+    if k == 5:
+        # 'a - m*n - b' without brackets: three operators, the middle one binding tighter
+        return ("bin", "-", ("bin", "-", ("sym", a), ("bin", "*", ("num", draw(st.integers(1, 3))), ("num", draw(st.integers(0, 5))))), ("sym", b))
+    if k == 6:
+        # a number on the left of the minus: 'N - a + b'
+        return ("bin", "+", ("bin", "-", ("num", draw(st.integers(0, 0o1000))), ("sym", a)), ("sym", b))
     if k == 0:
         return ("bin", "/", d, ("num", 2))
     if k == 1:
